@@ -129,6 +129,7 @@ func c09r1(c *Ctx, r *Report) {
 }
 
 func runC09(c *Ctx, r *Report) {
+	defer round8(c, r, "C09")
 	l := c.L
 	c09r1(c, r)
 	defer c15r7(c, r) // a reload restarts the indices: the selection of the old list must not carry over
@@ -141,7 +142,7 @@ func runC09(c *Ctx, r *Report) {
 	defer c09r13(c, r)
 	defer c09r14(c, r)
 	defer c14r13(c, r) // cursor arithmetic modulo the list length is guarded against the empty list
-	defer c07r6(c, r) // an action list stops at the action that ends the session
+	defer c07r6(c, r)  // an action list stops at the action that ends the session
 
 	// ---------------- R2 ----------------
 	r.rule("C09-R2", "E (exhaustiveness)", "P1",
